@@ -420,8 +420,30 @@ func genRandom(out *vc.Out, r *vc.Rand, n int) {
 	}
 }
 
+// ---- single storage-failure injection for CreateMapping: every position of the failure, with the name free,
+// taken, after a delete, and with invalid inputs
+
+func genFault(out *vc.Out) {
+	pres := [][]op{
+		nil,
+		{cOp(1, "b", baseA, 80)},
+		{cOp(1, "a", baseA, 80)},
+		{cOp(1, "a", baseA, 80), dOp(1, 1)},
+		{cOp(1, "a", baseA, 80), cOp(2, "b", baseA, 81), dOp(1, 2), uOp(2, "inactive", 0, "h", 80)},
+	}
+	creates := []op{cOp(2, "a", baseA, 81), cOp(2, "a", "nope.net", 81), cOp(2, "a", baseA, 0), cOp(0, "a", baseA, 81), cOp(1, "a", baseA, 80)}
+	for _, pre := range pres {
+		for _, c := range creates {
+			for k := 0; k <= 7; k++ {
+				emitF(out, &fcase{now: nowFixed, bases: []string{baseA}, pre: pre, k: k, op: c})
+			}
+		}
+	}
+}
+
 func generate(out *vc.Out, r *vc.Rand, thorough bool) {
 	genBoundary(out)
+	genFault(out)
 	genSpellings(out, r, thorough)
 	genTemplates(out, r.Fork(), thorough)
 	if thorough {
